@@ -73,6 +73,7 @@ def run(E: Engine, rep: Report, tier: str) -> dict:
     rep.check(has_nodelay, "FLOW", "phase_jump_buffer|only-if-not-no-delay", "computed under protocol != 'no-delay'", "the phase-jump buffer is no longer restricted to protocols other than 'no-delay' (or the guard disappeared)", where)
     # ... and the phase that is compared is the phase the slot will carry (the drift-corrected one), up to the time
     # at which the drift is evaluated
+    drift_times: list = []
     stored = [c for c in sym.subterms(arg(slot, 0, "type")) if c[0] == "call" and c[1] == ("name", "Pulse")]
     xs = [dict(c[3]).get("phase") for c in stored if dict(c[3]).get("phase") is not None]
     same_phase = bool(fts) and bool(xs)
@@ -99,8 +100,17 @@ def run(E: Engine, rep: Report, tier: str) -> dict:
             for x in sym.conj_of(l.cond):
                 m = is_(x, "Q_a.phase != Q_b")
                 if m is not None and m["Q_a"] == full["Q_lp"]:
-                    hit = hit or sym.match(xpat, m["Q_b"]) is not None
+                    mm_ = sym.match(xpat, m["Q_b"])
+                    hit = hit or mm_ is not None
+                    if mm_ is not None and mm_.get("Q_t") is not None:
+                        drift_times.append(mm_["Q_t"])
             same_phase = same_phase and hit
+    # ... evaluated no earlier than the pulse can start: the drift-corrected phase that is compared is taken at the start
+    # time AFTER the waits for other channels / phase barriers (the scheduled pulse carries the drift accumulated over that
+    # wait), not at the channel's current end t0
+    for dt_ in drift_times:
+        late_enough = full is not None and dt_ != full["Q_t0"] and (mentions(dt_, "phase_barrier_ts") or mentions(dt_, "_find_add_delay") or sym.contains(dt_, full["Q_t0"]) and dt_ != full["Q_t0"])
+        rep.check(late_enough, "FLOW", "phase_jump_buffer|phase-compared-at-the-earliest-start-after-waits", "corrected phase evaluated at max(t0, barriers, other channels' ends)", f"the phase that decides whether a phase jump is needed is the drift-corrected phase at `{sh(dt_, 60)}` (the channel's current end): when the pulse still has to wait for another channel, the phase it is scheduled with has drifted further, so two pulses of different scheduled phase can be left without the phase-jump time", where)
     rep.check(same_phase, "FLOW", "phase_jump_buffer|compares-the-phase-that-is-scheduled", "the last pulse's phase is compared with the phase the new slot carries (drift-corrected when a correction applies)", "the phase-jump buffer is decided on a phase other than the one stored in the new slot (e.g. the nominal pulse.phase although the slot carries the drift-corrected phase): two consecutive pulses of different scheduled phase can be left without the phase-jump time", where)
     rep.check(has_phase, "FLOW", "phase_jump_buffer|only-if-phase-differs", "computed only when the phase changes", "the phase-jump buffer is no longer conditioned on a phase change", where)
     # delay = max(conflict delay, buffer)
